@@ -54,6 +54,30 @@ Proof.
   exact (proj1 (forallb_forall site_ok sites) all_sites_ok s Hin).
 Qed.
 
+(** Ranges built inside the handlers.  [TextRange::new(A, B)] asserts A <= B; a site classified as end = start +
+    size, both ends of one range (shifted or not), or guarded by an explicit order test cannot crash for any
+    values; [Reviewed] sites carry a hand-checked invariant A <= B (trusted, pinned to a hash of the function). *)
+Theorem classified_range_site_never_crashes : forall (kind : order_kind) (a b k : N),
+  kind <> UnknownOrder -> range_site_entry kind a b k <> Crash.
+Proof. exact Proofs.classified_range_site_never_crashes. Qed.
+
+(** ... while an unclassified construction can (the completion range (start+1, end-1) of a lone opening quote:
+    20..19, found by the search and fixed). *)
+Theorem unknown_range_site_refuted : exists a b k, range_site_entry UnknownOrder a b k = Crash.
+Proof. exact Proofs.unknown_range_site_refuted. Qed.
+
+(** today's table of every TextRange::new site under handlers/: none is unclassified *)
+Theorem all_range_sites_ok : forallb range_site_ok range_sites = true.
+Proof. vm_compute. reflexivity. Qed.
+
+Theorem all_range_sites_safe : forall (s : range_site), In s range_sites ->
+  forall (a b k : N), range_site_entry (r_kind s) a b k <> Crash.
+Proof.
+  intros s Hin a b k. apply Proofs.classified_range_site_never_crashes.
+  pose proof (proj1 (forallb_forall range_site_ok range_sites) all_range_sites_ok s Hin) as H.
+  unfold range_site_ok in H. destruct (r_kind s); try discriminate; congruence.
+Qed.
+
 (** non-vacuity: a text with an astral character, CRLF and no trailing newline; positions inside the surrogate
     pair, past the end of a line, past the end of the document, at column u32::MAX; a reversed range *)
 Example entry_example :
